@@ -2,5 +2,5 @@
 # tools/seed_matrix_par.sh [P] : the whole seed matrix, P seeds at a time (default 3); one line per seed, then "finished"
 cd "$(dirname "$0")/.." || exit 3
 P=${1:-3}
-ls seeded | xargs -P "$P" -I{} sh -c 'tools/seed_matrix.sh {}'
+ls seeded | grep -E "^C[0-9]+-m[0-9]+$" | xargs -P "$P" -I{} sh -c 'tools/seed_matrix.sh {}'
 echo finished
